@@ -19,6 +19,8 @@ CLAIMS = {
  "C03": ("model_checking", "Sequential half: verdict = sole owner as an action property on every transition, replayed with every co-owner kind. Schedule half: ArcMM with a polling-and-writing thread under the extracted protocol.", N_GRAPH + "; " + N_MM, T_GRAPH + " + " + T_MM, "DESIGN.md §6 C03"),
  "C04": ("model_checking", "CountAccurate invariant and CountSteps action property on the specification; after every replayed behaviour every count accessor of every handle (also inside callbacks) is compared with the specification.", N_GRAPH, T_GRAPH, "DESIGN.md §6 C04"),
  "C05": ("model_checking", "Layout.tla invariants (alloc = release, fits, aligned, overflow refused) over the whole matrix; the allocator's (size, align) at alloc and dealloc for every constructor x release path of the real sub-lattice equals the specification's table.", N_LAY, T_LAY, "DESIGN.md §6 C05"),
+ "C06": ("model_checking", "Ctor.tla models every slice constructor step by step; TLC checks that a handle is produced only with every slot written from the input in order, that honest inputs always succeed and that the source's storage is released; each terminal state (constructor x length up to 300 x capacity x hint regime) is run against the real constructor with identity-tracked elements. Sized constructors are covered by the handle-level graph.", N_GRAPH, "TLA+ constructor specification (Ctor.tla) model-checked by TLC; every case it enumerates executed on the real crate and compared", "DESIGN.md §6 C06"),
+ "C07": ("fault_enumeration", "Ctor.tla with fault parameters (panic at the k-th next, misreported and changing lengths/hints, allocation failure) checked by TLC for at-most-once destruction and no exposed uninitialised slot; every enumerated fault case run on the real crate, observation must be within the specification's allowed outcome; panicking Clone / callbacks / with_arc_mut replacement in the handle-level graphs; allocation failure in child processes.", N_GRAPH, "TLA+ fault-parameterised specification checked by TLC; TLC-enumerated fault cases injected into the real crate", "DESIGN.md §6 C07"),
  "C08": ("model_checking", "Copy-on-write action properties (isolation, clones iff shared, fresh sole-owned block) on every transition; replay compares block identity, clone calls and values through all handles; ArcMM make_mut program race-free under the extracted protocol.", N_GRAPH + "; " + N_MM, T_GRAPH + " + " + T_MM, "DESIGN.md §6 C08"),
  "C09": ("model_checking", "Conservation invariants (destroyed xor moved out, once) and MovesOutOnlyWhenSole on the specification; replay with identity accounting of the moved-out value; ArcMM with threads racing unwrap/drop.", N_GRAPH + "; " + N_MM, T_GRAPH + " + " + T_MM, "DESIGN.md §6 C09"),
  "C10": ("model_checking", "Thin.tla: every ThinArc sits on a block whose recorded length is the slice length; thin<->fat conversions count-neutral; mismatching into_thin panics and releases; with_arc_mut write-back on return and on unwind after replace/swap. Every transition (plus random walks) replayed; thin view compared with the fat view address for address; Layout.tla length-word offset over the matrix.", N_GRAPH + "; " + N_LAY, T_GRAPH + " + " + T_LAY, "DESIGN.md §6 C10"),
